@@ -17,6 +17,7 @@ import (
 
 type Engine struct {
 	repo     string
+	modPath  string // module path of /repo (go.mod)
 	fset     *token.FileSet
 	pkgs     []*packages.Package
 	prog     *ssa.Program
@@ -61,7 +62,7 @@ func loadEngine(repo string) (*Engine, error) {
 	}
 	prog, _ := ssautil.AllPackages(pkgs, ssa.NaiveForm|ssa.GlobalDebug)
 	prog.Build()
-	eng := &Engine{repo: repo, fset: fset, pkgs: pkgs, prog: prog, spkgs: map[string]*ssa.Package{}, ppkgs: map[string]*packages.Package{},
+	eng := &Engine{repo: repo, modPath: "github.com/DemoHn/Zn", fset: fset, pkgs: pkgs, prog: prog, spkgs: map[string]*ssa.Package{}, ppkgs: map[string]*packages.Package{},
 		tags: newTagTable(), funcIDs: map[*ssa.Function]int{}, funcs: map[string]*ssa.Function{}, witTypes: map[string]types.Type{},
 		immut: map[*ssa.Global]bool{}, heapInd: map[*ssa.Function]int{}, tableFacts: map[string][]string{}}
 	dirs := map[string]string{}
